@@ -64,7 +64,10 @@ def start_op(draw):
     return {"force": draw(st.booleans()),
             "reaction": draw(st.sampled_from(REACTIONS + ["accept", "accept"])),
             "file_fault": draw(st.sampled_from(FILE_FAULTS + [None, None])),
-            "crash_at": draw(st.sampled_from(CRASHES + [None, None, None]))}
+            "crash_at": draw(st.sampled_from(CRASHES + [None, None, None])),
+            # the manager speaks the legacy protocol to its clients (--version-one): the PIN
+            # handling at start-up is the same
+            "v1": draw(st.integers(0, 3)) == 0}
 
 
 @st.composite
@@ -109,14 +112,16 @@ def single_starts(tier, seed):
         out.append({"platform": plat, "file0": file0, "path_style": style,
                     "starts": [{"force": force, "reaction": reaction, "file_fault": ff,
                                 "crash_at": crash}]})
-    for plat, file0, force, reaction in itertools.product(
+    for plat, file0, force, reaction, v1, program in itertools.product(
             ["Ledger", "SGX"], ["present", "absent", "invalid"], [False, True],
-            ["accept", "refuse"]):
-        out.append({"platform": plat, "file0": file0, "path_style": "plain", "program": True,
+            ["accept", "refuse"], [False, True], [True, False]):
+        if not v1 and not program:
+            continue        # the product above
+        out.append({"platform": plat, "file0": file0, "path_style": "plain", "program": program,
                     "starts": [{"force": force, "reaction": reaction, "file_fault": None,
-                                "crash_at": None},
+                                "crash_at": None, "v1": v1},
                                {"force": False, "reaction": "accept", "file_fault": None,
-                                "crash_at": None}]})
+                                "crash_at": None, "v1": v1}]})
     return out
 
 
@@ -222,7 +227,8 @@ def run_start(w, pf, op, platform, program=False):
             # the manager program itself, started as a user starts it
             from vlib import managers
             argv = ["-b", "127.0.0.1", "-p", "0", "-l", os.path.join(tmpdir(), "no-log.cfg"),
-                    "-P", pf] + (["-X"] if op["force"] else [])
+                    "-P", pf] + (["-X"] if op["force"] else []) + \
+                (["--version-one"] if op.get("v1") else [])
             # the configured default: the device's PIN when there is no file to take it from,
             # something else when there is (the file is what counts then)
             env_pin = DEFAULT.decode() if read_file(pf) is None else "envp9999"
@@ -236,7 +242,11 @@ def run_start(w, pf, op, platform, program=False):
             res["pin_before"] = pin.get_pin()
             dongle = hd.HSM2Dongle(False) if platform == "Ledger" else HSM2DongleSGX("h", 1,
                                                                                       False)
-            p = HSM2ProtocolLedger(pin, dongle)
+            if op.get("v1"):
+                from ledger.protocol_v1 import HSM1ProtocolLedger
+                p = HSM1ProtocolLedger(pin, dongle)
+            else:
+                p = HSM2ProtocolLedger(pin, dongle)
             try:
                 p.initialize_device()
                 res["out"] = "serve"
@@ -290,6 +300,8 @@ def run_case(c):
             f.write(b"not a pin!")
     labels = ["platform:" + c["platform"], "file0:" + c["file0"],
               "path:" + c.get("path_style", "plain")]
+    if any(op.get("v1") for op in c["starts"]):
+        labels.append("version-one" + (":program" if c.get("program") else ""))
     if c.get("program"):
         labels.append("via-manager-program")
     attempted_change = False
@@ -606,7 +618,7 @@ def run_generator(c):
 
 REQUIRED_LABELS = {t: ["reconnect", "reconnect-change", "path:plain",
                        "path:dotdot-through-symlink", "path:redundant-separators", "gen:first-block-rejected|gen:rng-not-scripted",
-                       "gen:first-block-valid|gen:rng-not-scripted", "platform:Ledger", "platform:SGX", "via-manager-program", "program:served",
+                       "gen:first-block-valid|gen:rng-not-scripted", "platform:Ledger", "platform:SGX", "via-manager-program", "version-one", "version-one:program", "program:served",
                        "program:change-attempted", "program:change-committed", "file0:present", "file0:absent",
                        "file0:invalid", "out:serve", "out:interrupt", "out:crash",
                        "out:pinerror", "change:accept", "change:refuse", "change:swerr",
